@@ -13,11 +13,11 @@ CONSTANTS
   MaxCalls = 50
   MaxMsgs = 100000
   Modes = {"generic"}
-INVARIANT Monotone
-INVARIANT ClosedOnce
-INVARIANT NothingAfterClosed
-INVARIANT NoDeliveryAfterClosed
-INVARIANT NoSendAfterClosed
-INVARIANT RegistryExactT
-INVARIANT ClosedWhenEndedT
-CHECK_DEADLOCK TRUE
+CONSTRAINT Monotone
+CONSTRAINT ClosedOnce
+CONSTRAINT NothingAfterClosed
+CONSTRAINT NoDeliveryAfterClosed
+CONSTRAINT NoSendAfterClosed
+CONSTRAINT RegistryExactT
+CONSTRAINT ClosedWhenEndedT
+CHECK_DEADLOCK FALSE
